@@ -1792,6 +1792,10 @@ class Symx:
         if done or not live:
             self.havoc_loop(s, st)
             return [st], []
+        if loop_exits and len(live) == 1:
+            # the state after the loop is reached only when no iteration exited: the single continuing path's conditions are
+            # exactly "this iteration did not exit" and hold for every iteration
+            del live[0].conds[ncond:]
         # entry placeholders of one array inside the terms of another (or of a scalar): the value at the start of the
         # iteration is the value before the loop when no earlier iteration can have written that element
         AUf = sp.core.function.AppliedUndef
